@@ -11,11 +11,12 @@
 (* every other preimage keeps a private key.  StoreForged additionally     *)
 (* files an entry for identity A under the key of preimage B.              *)
 (*                                                                         *)
-(* One operator per code site (names in comments).  Lookups are pure;      *)
-(* the derived variable obs lists every non-miss outcome of every route    *)
-(* for every query of the universe (it is what the conformance driver      *)
-(* compares the real pipeline with).  `last` is a ghost.  Both are hidden  *)
-(* by VIEW.                                                                *)
+(* One operator per code site (names in comments).  Lookups are pure.  In   *)
+(* replay configs (WithObs) every mutating step is followed by an Observe  *)
+(* step that stores in obs every non-miss outcome of every route for every *)
+(* query of relq -- what the conformance driver compares the real pipeline *)
+(* with.  `last` (the action just taken, with its arguments) and obs are   *)
+(* ghosts hidden by VIEW.  kdom/kfun/ids/fids/relq are fixed at Init.      *)
 (***************************************************************************)
 EXTENDS Integers, FiniteSets, Sequences, TLC
 
@@ -394,6 +395,8 @@ ExactAudienceServed ==
                    /\ x.client = "none" => Match(PipeGet(x), x)
 (* obs is exactly the set of served hits (replay configs) *)
 ObsFaithful == (WithObs /\ phase = "m") => obs = ObsNow
+(* ... and every outcome handed to the conformance driver satisfies the property *)
+ObsMatches == \A o \in obs : Match(o.res, o.q)
 (* nothing is ever filed under a private key: queries outside relq miss everywhere *)
 KeysInDom == /\ DOMAIN pos \subseteq 0..KMax /\ DOMAIN fail \subseteq 0..KMax
              /\ DOMAIN chash \subseteq 0..KMax
